@@ -57,4 +57,23 @@ func HarnessC16a() {
 			verifAssert("C16.delete-reads-two-paths", st.nLoad-n0 <= 2*(H+1))
 		}
 	}
+	// after the operation (the handle now mixes in-memory path nodes with persisted children): cloning it, or
+	// opening a cursor on it, still reads at most the top node, and a lookup still reads at most one path
+	n0 = st.nLoad
+	c2, err := c.Clone(vctx)
+	verifAssert("C01.clone.err", err == nil)
+	verifAssert("C16.clone-after-op-reads-top-only", st.nLoad-n0 <= 1)
+	n0 = st.nLoad
+	_, err = c.Cursor(vctx)
+	verifAssert("C01.cursor.err", err == nil)
+	verifAssert("C16.cursor-after-op-reads-top-only", st.nLoad-n0 <= 1)
+	if err == nil && verifBoundOr("GET2", 0) == 1 {
+		// (only where GET2 says so: a second symbolic key multiplies the paths by the tree size)
+		var out uint64
+		k2 := verifNondetKey("k2")
+		n0 = st.nLoad
+		_, err = c2.Get(vctx, symKey{k2}, &out)
+		verifAssert("C01.get.err", err == nil)
+		verifAssert("C16.get-after-op-reads-path", st.nLoad-n0 <= int(c2.Height())+1)
+	}
 }
